@@ -1,11 +1,11 @@
 #!/bin/bash
-# sweep.sh <tier> <seed>...  : every check at the given seeds; prints one line per (check, seed) and every VIOLATION / INCONCLUSIVE line.
+# sweep.sh <tier> <seed>...  : every check (or those named in $CHECKS) at the given seeds; prints one line per (check, seed) and every VIOLATION / INCONCLUSIVE line.
 cd "$(dirname "$0")/.."
 TIER=${1:-quick}; shift
 SEEDS=${*:-1 2 3 7 42}
 rc=0
 for s in $SEEDS; do
-  for id in $(seq -f "C%02g" 1 20); do
+  for id in ${CHECKS:-$(seq -f "C%02g" 1 20)}; do
     out=$(VERIF_SEED=$s bin/vcheck $id $TIER 2>&1); code=$?
     echo "seed=$s $id exit=$code $(echo "$out" | grep '^SUMMARY' | cut -c1-200)"
     echo "$out" | grep -E '^(VIOLATION|INCONCLUSIVE|KNOWN-FINDING)' | cut -c1-300
